@@ -138,22 +138,62 @@ def run(ctx):
     chg = repo.fn(M, 'TrackedValue._changed_')
     g = cg.cfg(chg)
     fw = nodes_calling(g, lambda c: isinstance(c.func, ast.Attribute) and c.func.attr == '_attr_changed_')
-    none_t = {t.id for t in g.nodes if t.kind == 'test' and norm(t.ast) == 'obj is not None'}
-    rr = g.reach([g.entry], avoid=fw, edge_ok=lambda x, y, lab: not (x in none_t and lab == 'F'))
+    # with a live owner (`obj is None` false, whatever way the test is written) no normal return is reachable without the forwarding call
+    from ..typestate import eval_test
+    def alive_atom(text, node):
+        t_ = text.replace(' ', '')
+        if t_ == 'objisNone': return False
+        if t_ == 'objisnotNone': return True
+        return None
+    def alive_edge(x, y, lab):
+        n_ = g.nodes[x]
+        if n_.kind != 'test' or lab not in ('T', 'F'): return True
+        v = eval_test(n_.ast, alive_atom)
+        return v is None or v == (lab == 'T')
+    rr = g.reach([g.entry], avoid=fw, edge_ok=alive_edge)
     ok = bool(fw) and g.exit.id not in rr
     ctx.ob('C28-WRAP._changed_-forwards', chg, fw[0].ast if fw else chg.node, ok,
            '' if ok else '_changed_ can return without obj._attr_changed_(attr) although the owner is alive')
     ac = repo.fn('pony.orm.core', 'Entity._attr_changed_')
     g = cg.cfg(ac)
-    wb = [n for n in g.nodes if n.kind == 'stmt' and isinstance(n.ast, ast.AugAssign) and dotted(n.ast.target) == '%s._wbits_' % ac.recv
-          and isinstance(n.ast.op, ast.BitOr)]
+    # write bit added (|= or `= wbits | bit`), status set to 'modified', object queued: for an object that is loaded/inserted/updated (status not
+    # 'modified', wbits not None, bit non-zero) every path to a normal return passes all three
+    def adds_wbit(n):
+        a = n.ast
+        if n.kind != 'stmt': return False
+        if isinstance(a, ast.AugAssign) and dotted(a.target) == '%s._wbits_' % ac.recv and isinstance(a.op, ast.BitOr): return True
+        return isinstance(a, ast.Assign) and any(dotted(t) == '%s._wbits_' % ac.recv for t in a.targets) and isinstance(a.value, ast.BinOp) and isinstance(a.value.op, ast.BitOr)
+    wb = [n for n in g.nodes if adds_wbit(n)]
     ap = nodes_calling(g, lambda c: isinstance(c.func, ast.Attribute) and c.func.attr == 'append' and 'objects_to_save' in norm(c.func.value))
     st = [n for n in g.nodes if n.kind == 'stmt' and isinstance(n.ast, ast.Assign) and any(dotted(t) == '%s._status_' % ac.recv for t in n.ast.targets)
           and norm(n.ast.value) == "'modified'"]
+    from ..typestate import eval_test as _ev
+    from ..q import alias_map
+    am_ac = alias_map(ac.node)
+    st_names = {'%s._status_' % ac.recv} | {n_ for n_, src in am_ac.items() if src == '%s._status_' % ac.recv}
+    wb_names = {'%s._wbits_' % ac.recv} | {n_ for n_, src in am_ac.items() if src == '%s._wbits_' % ac.recv}
+    def scen_atom(text, node):
+        t_ = text
+        for sn in st_names:
+            if t_ == sn + " != 'modified'": return True
+            if t_ == sn + " == 'modified'": return False
+            if t_.startswith(sn + ' in del_statuses'): return False
+            if t_.startswith(sn + ' in ('): return True            # the assert on ('loaded', 'inserted', 'updated')
+        for wn in wb_names:
+            if t_ == wn + ' is None': return False
+            if t_ == wn + ' is not None': return True
+        if t_ == 'bit': return True
+        if '.is_alive' in t_ or t_.endswith(' is None') and 'cache' in t_: return None
+        return None
+    def scen_edge(x, y, lab):
+        n_ = g.nodes[x]
+        if n_.kind != 'test' or lab not in ('T', 'F'): return True
+        v = _ev(n_.ast, scen_atom)
+        return v is None or v == (lab == 'T')
     ok = bool(wb) and bool(ap) and bool(st)
     if ok:
-        # after setting status 'modified' the object must be queued before returning
-        ok = all(g.must_pass_after(s, ap) for s in st)
+        for need in (wb, st, ap):
+            if g.exit.id in g.reach([g.entry], avoid=need, edge_ok=scen_edge): ok = False
     ctx.ob('C28-WRAP._attr_changed_-marks-and-queues', ac, wb[0].ast if wb else ac.node, ok,
            '' if ok else '_attr_changed_ does not set the write bit / status / save queue')
     # ---------------------------------------------------------------- OWNER
